@@ -114,7 +114,7 @@ func (rm *RpcMultiplexer) CallUnaryMethod(
 				Header:     headers,
 			})
 		}
-		if resp.Status != nil {
+		if resp.Status != nil && resp.Status.Code != 0 {
 			return nil, status.FromProto(&spb.Status{
 				Code:    resp.Status.Code,
 				Message: resp.Status.Message,
